@@ -53,3 +53,34 @@ def riem_projection(E, s):
         raise ValueError(what)
     E.eq('operand_x', dense(E, x.cores), xd)
     E.eq('operand_z', dense(E, z.cores), zd)
+
+
+@scenario
+def riem_gradient(E, s):
+    """riemannian_gradient(x, f) == P_x(grad f(x)) for f in {quadratic misfit, linear functional, quartic}"""
+    tn, tt = E.tn, E.tt
+    N, Rx, M = s['N'], s['Rx'], s.get('M')
+    if s.get('patterns'):
+        x, xc = so_tt_input(E, 'x', N, Rx, s['patterns'], M)
+    else:
+        x, xc = tt_input(E, 'x', N, Rx, 'float64', M)
+    t, tc = tt_input(E, 't', N, [1] * (len(N) + 1), 'float64', M)
+    xd = dense(E, xc)
+    fk = s['f']
+    if fk == 'quadratic':
+        f = lambda X: 0.5 * (X - t).norm(True)
+        g = x - t
+    elif fk == 'linear':
+        f = lambda X: tt.dot(X, t) if M is None else (X * t).sum()
+        g = t
+    elif fk == 'quartic':
+        f = lambda X: ((X * X) * (X * X)).sum()
+        g = 4.0 * (x * x * x)
+    else:
+        raise ValueError(fk)
+    rg = tt.manifold.riemannian_gradient(x, f)
+    ref = tt.manifold.riemannian_projection(x, g)
+    E.true('is_tt', isinstance(rg, tt.TT) and rg.is_ttm == (M is not None))
+    E.true('shape', list(rg.N) == list(N))
+    E.eq('value', dense(E, rg.cores), dense(E, ref.cores))
+    E.eq('operand_x', dense(E, x.cores), xd)
